@@ -842,6 +842,49 @@ func c20Cases(c *Ctx) []*c20Case {
 		add(&c20Case{Key: "refusal/tokens-not-for-every-peer/valid/self-src=" + src, Family: "tokens-not-for-every-peer", Source: "yaml", Expect: "run",
 			Spec: mk("peers:\n  - rpc-address: 127.0.0.2\n    tokens: [\"100\"]\n  - rpc-address: 127.0.0.3\n    tokens: [\"200\", \"300\"]\n"), Detail: "tokens for this proxy and for every peer"})
 	}
+	// every layout: 1-3 remote peers, each with or without tokens, this proxy's own entry absent from the shared list or
+	// present (first or last, with or without tokens of its own): refused exactly when some REMOTE peer has no tokens
+	for nRemote := 1; nRemote <= 3; nRemote++ {
+		for mask := 0; mask < 1<<nRemote; mask++ {
+			for own := 0; own < 5; own++ { // 0 absent, 1 first+tokens, 2 first, 3 last+tokens, 4 last
+				var entries []string
+				missing := 0
+				for k := 0; k < nRemote; k++ {
+					e := fmt.Sprintf("  - rpc-address: 127.0.0.%d\n", k+2)
+					if mask&(1<<k) != 0 {
+						e += fmt.Sprintf("    tokens: [\"%d\"]\n", 100*(k+1))
+					} else {
+						missing++
+					}
+					entries = append(entries, e)
+				}
+				ownEntry := "  - rpc-address: 127.0.0.1\n"
+				if own == 1 || own == 3 {
+					ownEntry += "    tokens: [\"1000\", \"2000\"]\n"
+				}
+				switch own {
+				case 1, 2:
+					entries = append([]string{ownEntry}, entries...)
+				case 3, 4:
+					entries = append(entries, ownEntry)
+				}
+				expect := "run"
+				if missing > 0 {
+					expect = "refuse"
+				}
+				src := c20Sources[(nRemote+mask+own)%len(c20Sources)]
+				sp := c20Spec{YAML: "rpc-address: 127.0.0.1\npeers:\n" + strings.Join(entries, "")}
+				if src == "yaml" {
+					c20PutRaw(&sp, src, "tokens", `["1000", "2000"]`)
+				} else {
+					c20Put(&sp, src, "tokens", "1000,2000")
+				}
+				add(&c20Case{Key: fmt.Sprintf("refusal/tokens-not-for-every-peer/layout/remote=%d/with-tokens=%0*b/own-entry=%s/self-src=%s", nRemote, nRemote, mask,
+					[]string{"absent", "first+tokens", "first", "last+tokens", "last"}[own], src), Family: "tokens-not-for-every-peer", Source: "yaml", Expect: expect,
+					Spec: sp, Detail: fmt.Sprintf("%d remote peers, %d of them without tokens; own entry in the list: %s", nRemote, missing, []string{"no", "first, with tokens", "first, no tokens", "last, with tokens", "last, no tokens"}[own])})
+			}
+		}
+	}
 	add(&c20Case{Key: "refusal/tokens-not-for-every-peer/valid-no-tokens", Family: "tokens-not-for-every-peer", Source: "yaml", Expect: "run",
 		Spec: c20Spec{YAML: "rpc-address: 127.0.0.1\npeers:\n  - rpc-address: 127.0.0.2\n  - rpc-address: 127.0.0.3\n"}, Detail: "no tokens anywhere (computed)"})
 	// D6 unknown names
